@@ -20,6 +20,15 @@ pub fn check(case: &Case, rec: &mut Rec) -> Option<Failure> {
     for (i, op) in case.ops.iter().enumerate() {
         let x = match op {
             Op::Next(x) => *x,
+            Op::Reset => {
+                // t, the window and the largest magnitude are counted since construction/reset
+                if !rec.reset(id) {
+                    return fail(case, "panic", format!("reset panicked at op {}", i));
+                }
+                h.clear();
+                big = 0.0;
+                continue;
+            }
             _ => continue,
         };
         h.push(x);
@@ -35,6 +44,8 @@ pub fn check(case: &Case, rec: &mut Rec) -> Option<Failure> {
         let bad = |what: &str, got: f64, want: DD, tol: f64| -> Option<Failure> {
             let d = absdiff(got, want);
             if !(d <= tol) {
+                // known finding: WMA's running weighted sum drifts to just beyond the envelope on long streams
+                let what = if what == "wma" && t >= 1000 && d <= 2.0 * tol { "wma-drift-marginal" } else { what };
                 fail(case, what, format!("step {} (t={}, n={}): got {:e}, exact {:e}, |diff|={:e} > tol {:e}; window={:?}", i, t, n, got, want.to_f64(), d, tol, &w[..w.len().min(8)]))
             } else {
                 None
@@ -124,6 +135,13 @@ pub fn generate(r: &mut Runner) {
                 }
                 // non-trivial: wraps the ring (depth > n) — every such sequence evicts at least once
                 let _ = ties;
+                if code % 7 == 3 {
+                    // same sequence once more after a reset at full depth: the window must restart empty
+                    let again: Vec<Op> = c.ops.iter().rev().cloned().collect();
+                    c.ops.push(Op::Reset);
+                    c.ops.extend(again);
+                    c.kind = "window-exhaustive-reset".into();
+                }
                 r.run(c, depth > n);
             }
         }
@@ -137,16 +155,25 @@ pub fn generate(r: &mut Runner) {
         let n = if i % 5 == 0 { r.rng.range(1, 1024) } else { gen::period(&mut r.rng, 1024) };
         let len = if r.tier == Tier::Quick { r.rng.range(1, 600) } else { r.rng.range(1, 5000) };
         let regime = *r.rng.pick(gen::REGIMES);
-        let scale = *r.rng.pick(&[1e-3, 1.0, 100.0, 1e6, 1e9, 1e11]);
+        let scale = *r.rng.pick(&[1e-12, 1e-9, 1e-6, 1e-3, 1.0, 100.0, 1e6, 1e9, 1e11]);
         let positive = r.rng.chance(0.4);
         let xs = gen::stream(&mut r.rng, regime, len, positive, scale);
         let ms: Vec<f64> = if ind == "BollingerBands" { vec![*r.rng.pick(&[0.0, 0.5, 1.0, 2.0, 3.0, 10.0])] } else { vec![] };
         let mut c = Case::new("C01", &format!("window-{}", regime), ind, &[n], &ms);
         c.ops = xs.into_iter().filter(|x| x.abs() <= 1e12).map(Op::Next).collect();
+        // a third of the cases: resets at random points (the statistic restarts: t counts inputs since reset)
+        if i % 3 == 1 && c.ops.len() > 2 {
+            let k = r.rng.range(1, 3);
+            for _ in 0..k {
+                let at = r.rng.range(1, c.ops.len() - 1);
+                c.ops.insert(at, Op::Reset);
+            }
+            c.kind = format!("{}-with-reset", c.kind);
+        }
         let nt = c.ops.len() >= 2 * n + 1;
         r.count(&format!("regime:{}", regime));
         r.run(c, nt);
     }
 }
 
-pub const RULE: &str = "stage 1: every sequence of the stated depth over the alphabet {-2,-1,0,1,1e6,3} (ties, sign changes, zero, a 10^6 spike) for periods 1..=5 and all 7 indicators (all prefixes are checked, so shorter sequences are included); stage 2: sampled periods to 1024, regimes walk/alt/spike/plateau/saw/alphabet/flat/trend/mixed, magnitudes to 1e12, any sign. A case is non-trivial when the stream is longer than the period (stage 1) or wraps the ring at least twice (stage 2); distinct = distinct (indicator, params, stream) encodings.";
+pub const RULE: &str = "stage 1: every sequence of the stated depth over the alphabet {-2,-1,0,1,1e6,3} (ties, sign changes, zero, a 10^6 spike) for periods 1..=5 and all 7 indicators (all prefixes are checked, so shorter sequences are included); stage 2: sampled periods to 1024, regimes walk/alt/spike/plateau/saw/alphabet/flat/trend/mixed, magnitudes from 1e-12 to 1e12, any sign; a third of the sampled cases and a seventh of the exhaustive ones contain reset() calls (t and the window restart). A case is non-trivial when the stream is longer than the period (stage 1) or wraps the ring at least twice (stage 2); distinct = distinct (indicator, params, stream) encodings.";
